@@ -196,4 +196,27 @@ theorem resume_sdl {db : Db} {h o next : Nat} (hr : Retained db h o) (hg : Good 
   have hd := migrate_undisturbed_done hr1 (attempts db next steps).2
   exact ⟨hd, eq_backfilled (ha.1.trans hm.1) (hm.2.2.1 hd)⟩
 
+/-- statedifflength returns `(checkpoint, nil)` only when the source was cut short by a cancellation
+(`pass (some k)`): never on an undisturbed run, a failure or a death. -/
+theorem migrate_rerun_cancelled (db : Db) (next : Nat) (st : Step) (m : Nat)
+    (hr : (migrate db next st).2 = .rerun m) : ∃ k, st = .pass (some k) := by
+  unfold migrate at hr
+  cases st with
+  | pass emit =>
+    cases emit with
+    | some k => exact ⟨k, rfl⟩
+    | none =>
+      exfalso
+      simp only [Option.getD_none, Nat.min_self, Nat.lt_irrefl, if_false] at hr
+      repeat' split at hr
+      all_goals simp at hr
+  | crash emit sel =>
+    exfalso; simp only at hr
+    repeat' split at hr
+    all_goals simp at hr
+  | writeFail emit sel =>
+    exfalso; simp only at hr
+    repeat' split at hr
+    all_goals simp at hr
+
 end Juno.C18.SDL
